@@ -182,31 +182,59 @@ theorem scalarSafe_safecast {dt : DType} {at_ : Attr} (h : scalarSafe dt at_ = t
 
 theorem view_false (b : Nat) (v : V) : view false b v = v := rfl
 
+/-- A safe (scalar or vector) `missing_value` contributes exactly the read's `safeMissing`
+elements, each as a scalar fill value. -/
+theorem vectorSafe_fillList {dt : DType} {a : Attrs} (h : vectorSafe dt a.missingValue = true) :
+    fillList a.missingValue = (safeMissing dt a).map (fun v => AttrVal.vals v []) := by
+  simp only [safeMissing]
+  cases hm : a.missingValue with
+  | none => rfl
+  | some x =>
+    cases x with
+    | text => simp [hm, vectorSafe] at h
+    | vals hd tl =>
+      simp only [hm, vectorSafe] at h
+      simp [fillList, safecast, h]
+
+/-- The reader's `_FillValue` (explicit and safe, or the recorded default) is the one fill
+value the read uses. -/
+theorem scalarSafe_fillList {dt : DType} {a : Attrs} (h : scalarSafe dt a.fillValue = true) :
+    fillList (readerProps dt a).fillValue = [AttrVal.vals (fillOf dt a) []] := by
+  simp only [readerProps, fillOf]
+  cases hf : a.fillValue with
+  | none => simp [fillList, safecast]
+  | some x =>
+    cases x with
+    | text => simp [hf, scalarSafe] at h
+    | vals hd tl =>
+      cases tl with
+      | cons _ _ => simp [hf, scalarSafe] at h
+      | nil =>
+        simp only [hf, scalarSafe] at h
+        simp [fillList, safecast, h]
+
+theorem any_fill_swap (ms : List V) (f : V) (d : V) :
+    ([f] ++ ms).any (fun m => fillEq d m) = (ms.any (fun m => matchFill m d) || matchFill f d) := by
+  simp [fillEq, Bool.or_comm]
+
 /-- The per-variable core of C07_apply_masking. -/
 theorem apply_props_scalars (dt : DType) (a : Attrs) (raw : List V)
-    (hfv : scalarSafe dt a.fillValue = true) (hmv : scalarSafe dt a.missingValue = true)
+    (hfv : scalarSafe dt a.fillValue = true) (hmv : vectorSafe dt a.missingValue = true)
     (hmin : scalarSafe dt a.validMin = true) (hmax : scalarSafe dt a.validMax = true)
     (hr : rangeOK dt a = true)
     (hs : (!dt.isString || (a.validMin.isNone && a.validMax.isNone && a.validRange.isNone)) = true) :
     propsApplyMasking (readerProps dt a) (raw.map some)
       = .ok (raw.map (fun d => if elemMask dt a false d then none else some d)) := by
-  have e1 := scalarSafe_attr hfv
-  have e2 := scalarSafe_attr hmv
   have e3 := scalarSafe_attr hmin
   have e4 := scalarSafe_attr hmax
-  have c1 := scalarSafe_safecast hfv
-  have c2 := scalarSafe_safecast hmv
   have c3 := scalarSafe_safecast hmin
   have c4 := scalarSafe_safecast hmax
   -- the fill values handed to Data.apply_masking
-  have hfills : [ (readerProps dt a).fillValue, (readerProps dt a).missingValue ].filterMap id
-      = ([fillOf dt a] ++ (scalarOf a.missingValue).toList).map (fun v => AttrVal.vals v []) := by
-    simp only [readerProps, fillOf, c1]
-    rw [e1, e2]
-    cases scalarOf a.fillValue <;> cases scalarOf a.missingValue <;> simp [scalarOf]
-  have hmiss : safeMissing dt a = (scalarOf a.missingValue).toList := by
-    simp only [safeMissing, c2]
-    cases scalarOf a.missingValue <;> simp
+  have hfills : fillsOf (readerProps dt a)
+      = ([fillOf dt a] ++ safeMissing dt a).map (fun v => AttrVal.vals v []) := by
+    have hm : (readerProps dt a).missingValue = a.missingValue := rfl
+    simp only [fillsOf, scalarSafe_fillList hfv, hm, vectorSafe_fillList hmv, List.map_append,
+      List.map_cons, List.map_nil]
   cases hvr : a.validRange with
   | none =>
     have hvb : validBounds dt a = (scalarOf a.validMin, scalarOf a.validMax) := by
@@ -220,19 +248,16 @@ theorem apply_props_scalars (dt : DType) (a : Attrs) (raw : List V)
     simp only [Except.ok.injEq]
     apply List.map_congr_left
     intro d _
-    simp only [elemMask, hmiss, hvb, view_false, fillEq]
+    simp only [elemMask, hvb, view_false, any_fill_swap]
     cases hstr : dt.isString with
     | false =>
-      simp only [List.any_append, List.any_cons, List.any_nil, Bool.or_false, Bool.not_false, Bool.true_and, scalarOf]
+      simp only [Bool.not_false, Bool.true_and, scalarOf]
       congr 1
-      cases scalarOf a.missingValue <;> cases scalarOf a.validMin <;> cases scalarOf a.validMax <;>
-        simp [Bool.or_comm, Bool.or_assoc]
+      cases scalarOf a.validMin <;> cases scalarOf a.validMax <;>
+        simp [Bool.or_assoc]
     | true =>
       simp only [hstr, hvr, Bool.not_true, Bool.false_or, Bool.and_eq_true, Option.isNone_iff_eq_none] at hs
-      simp only [hs.1.1, hs.1.2, scalarOf, Option.map_none, Option.getD_none, Bool.or_false, Bool.not_true,
-        Bool.false_and, List.any_append, List.any_cons, List.any_nil]
-      congr 1
-      cases scalarOf a.missingValue <;> simp [Bool.or_comm]
+      simp [hs.1.1, hs.1.2, scalarOf]
   | some vr =>
     simp only [rangeOK, hvr] at hr
     cases vr with
@@ -255,21 +280,21 @@ theorem apply_props_scalars (dt : DType) (a : Attrs) (raw : List V)
           simp only [propsApplyMasking, propsApplyMaskingWith, hfills]
           simp only [readerProps, hvr, hmn, hmx, Option.isSome_none, Bool.or_self, Bool.and_false,
             Bool.false_eq_true, if_false, dataApplyMaskingWith, splitRange]
-          have := dataApplyCore_scalars fillEq ([fillOf dt a] ++ (scalarOf a.missingValue).toList)
+          have := dataApplyCore_scalars fillEq ([fillOf dt a] ++ safeMissing dt a)
             (some lo) (some hi) raw
           simp only [Option.map_some] at this
           rw [this]
           simp only [Except.ok.injEq]
           apply List.map_congr_left
           intro d _
-          simp only [elemMask, hmiss, hvb, view_false, fillEq, hstr]
+          simp only [elemMask, hvb, view_false, any_fill_swap, hstr]
           congr 1
-          cases scalarOf a.missingValue <;> simp [Bool.or_comm, Bool.or_assoc, Bool.or_left_comm]
+          simp [Bool.or_assoc]
 
 /-! ## Variable, construct and field level -/
 
 theorem ApplyOK_parts {dt : DType} {a : Attrs} {up : Bool} (h : ApplyOK dt a up = true) :
-    scalarSafe dt a.fillValue = true ∧ scalarSafe dt a.missingValue = true
+    scalarSafe dt a.fillValue = true ∧ vectorSafe dt a.missingValue = true
     ∧ scalarSafe dt a.validMin = true ∧ scalarSafe dt a.validMax = true ∧ rangeOK dt a = true
     ∧ (!dt.isString || (a.validMin.isNone && a.validMax.isNone && a.validRange.isNone)) = true
     ∧ (!up || (a.scaleFactor.isNone && a.addOffset.isNone && !unsignedView dt a true)) = true := by
